@@ -229,6 +229,10 @@ func (g *DependencyGraph) AddProviderDeferred(provider Provider) error {
 		}
 		node.Dependencies = dependencies
 		g.edges[nodeKey] = dependencies
+	} else {
+		// Replacing a provider by one without dependencies removes its edges
+		node.Dependencies = node.Dependencies[:0]
+		delete(g.edges, nodeKey)
 	}
 
 	// Mark caches as dirty (defer degree updates to DetectCycles)
